@@ -110,6 +110,18 @@ def run(ctx):
     seq = [(sp.Integer(2), [(sp.Integer(1), Fe), (q[0], O)]), (q[1], Fe), (q[2], [(q[3], [(q[4], H1)])])]
     dict_eq(ctx, "R1", "formula(nested sequence): counts multiply through groups, repeats add",
             atoms(I.call(fm, [seq], {})), {Fe: 2 + q[1], O: 2 * q[0], H1: q[2] * q[3] * q[4]}, s_formula)
+    # the same sequence handed over as one-shot iterators (zip(counts, atoms) at the top level and inside a group)
+    from ptstat.symval import GenVal
+    seq_it = GenVal([(sp.Integer(2), GenVal([(sp.Integer(1), Fe), (q[0], O)])), (q[1], Fe), (q[2], [(q[3], GenVal([(q[4], H1)]))])])
+    rr = raises(lambda: I.call(fm, [seq_it], {}))
+    if rr is not None:
+        # (an implementation may insist on real sequences; then it must say so rather than build something else)
+        ctx.ok("R1", "formula(sequence given as iterators): counts multiply through groups, repeats add", site=s_formula,
+               sample=f"iterators are rejected ({rr})")
+    else:
+        seq_it = GenVal([(sp.Integer(2), GenVal([(sp.Integer(1), Fe), (q[0], O)])), (q[1], Fe), (q[2], [(q[3], GenVal([(q[4], H1)]))])])
+        dict_eq(ctx, "R1", "formula(sequence given as iterators): counts multiply through groups, repeats add",
+                atoms(I.call(fm, [seq_it], {})), {Fe: 2 + q[1], O: 2 * q[0], H1: q[2] * q[3] * q[4]}, s_formula)
     ct = I.global_name("formulas", "_change_table")
     dict_eq(ctx, "R1", "_change_table keeps counts", I.call(I.global_name("formulas", "_count_atoms"),
             [I.call(ct, [struct(I.call(fm, [seq], {})), w.table], {})], {}),
@@ -143,7 +155,23 @@ def run(ctx):
            fsite(ctx, "formulas.Formula.mass_fraction"))
         eq(ctx, "R2", f"molecular_mass [{kind}]", I.getattr(fk, "molecular_mass"), total / NA,
            fsite(ctx, "formulas.Formula.molecular_mass"))
-    ctx.floor("R2", 30)
+    # derived quantities of results whose operands were already asked for theirs (values remembered on an operand
+    # must not travel into the product, the sum or the extended formula)
+    fa, fb = mk({Fe: q[0], O: q[1]}), mk({H1: q[2]})
+    Ma, Mb = q[0] * m["element"] + q[1] * mO, q[2] * mass_sym("H1")
+    for read in ("mass", "charge", "mass_fraction", "molecular_mass"):
+        I.getattr(fa, read), I.getattr(fb, read)
+    prod = I.lib.binop(I, MUL, n, fa)
+    eq(ctx, "R2", "mass(n*f) after f.mass was read", I.getattr(prod, "mass"), n * Ma, s_mass)
+    eq(ctx, "R2", "mass fractions of n*f sum to one after f's were read", sum(I.getattr(prod, "mass_fraction").values()), 1,
+       fsite(ctx, "formulas.Formula.mass_fraction"))
+    ssum = I.lib.binop(I, ADD, fa, fb)
+    eq(ctx, "R2", "mass(f+g) after f.mass and g.mass were read", I.getattr(ssum, "mass"), Ma + Mb, s_mass)
+    I.getattr(ssum, "mass")
+    I.call(I.getattr(ssum, "__iadd__"), [fb], {})
+    eq(ctx, "R2", "mass(h) after h += g, h.mass having been read before", I.getattr(ssum, "mass"), Ma + 2 * Mb, s_mass)
+    eq(ctx, "R2", "mass(f) is unchanged by the operations on its results", I.getattr(fa, "mass"), Ma, s_mass)
+    ctx.floor("R2", 35)
 
     # ---- R3 operands unchanged ----------------------------------------------
     ctx.check(struct(f) is before_f or struct(f) == before_f, "R3", "f unchanged by f+g, n*f, formula(f)",
